@@ -182,6 +182,16 @@ func c14Negotiate(c *Ctx) {
 			if e != "nil" || r.accF != "false" {
 				problems = append(problems, "a declined offer must leave the negotiator unaccepted and return no error ["+desc+"]")
 			}
+			// "the first acceptable one": the negotiator answers with its configuration, so an
+			// offer to which the configuration is a legal answer must not be passed over. Left
+			// open: a value-less client_max_window_bits against a configured value (the code
+			// declines; the RFC allows either).
+			cfg, o := r.c.cfg, r.c.offer
+			if (o[2] == 0 || (cfg[2] != 0 && cfg[2] <= o[2])) &&
+				(cfg[3] == 0 || (o[3] >= 8 && cfg[3] <= o[3])) &&
+				(o[0] == 0 || cfg[0] == 1) {
+				problems = append(problems, "first acceptable offer passed over: the configured parameters are a legal answer, yet the offer is declined ["+desc+"]")
+			}
 			continue
 		}
 		acceptedCells++
